@@ -45,7 +45,9 @@ Proof.
   destruct m; destruct n; simpl; try reflexivity; try apply Hf. apply IH. exact Hf.
 Qed.
 
-Definition geo (x : block) : N * N * N := (b_idx x, b_off x, b_len x).
+Definition geo (x : block) : N * N * N * N := (b_idx x, b_off x, b_len x, b_no x).
+Lemma geo_no : forall y x, geo y = geo x -> b_no y = b_no x /\ b_off y = b_off x.
+Proof. unfold geo. intros y x E. inversion E. auto. Qed.
 Lemma geo_idx : forall y x, geo y = geo x -> b_idx y = b_idx x.
 Proof. unfold geo. intros y x E. inversion E. reflexivity. Qed.
 
